@@ -19,11 +19,14 @@ def run(cmd, env=None, cwd=None, timeout=3600):
 def main():
     d = os.path.abspath(sys.argv[1])
     suite = "--suite" in sys.argv
+    recheck = "--recheck" in sys.argv  # keep the recorded demo/suite confirmation, only re-run the checks with the current machinery
     props = [a for a in sys.argv[2:] if a.startswith("C")]
     meta = json.load(open(os.path.join(d, "meta.json")))
     prop = meta["property"]
     props = props or [prop]
     res = {"property": prop}
+    if recheck and os.path.exists(os.path.join(d, "result.json")):
+        res = json.load(open(os.path.join(d, "result.json")))
     tmp = tempfile.mkdtemp(prefix="pyvc-seed.")
     try:
         shutil.copytree("/repo/src", os.path.join(tmp, "src"))
@@ -32,11 +35,14 @@ def main():
         if rc != 0:
             res["patch_output"] = out[-500:]
         env_mut = {"PYTHONPATH": os.path.join(tmp, "src")}
-        rc_clean, o1 = run(f"/venv/bin/python {d}/demo.py", env={"PYTHONPATH": "/repo/src"}, cwd=tmp, timeout=900)
-        rc_mut, o2 = run(f"/venv/bin/python {d}/demo.py", env=env_mut, cwd=tmp, timeout=900)
-        res["demo_passes_clean"] = rc_clean == 0
-        res["demo_fails_patched"] = rc_mut != 0
-        res["demo_tail_patched"] = o2[-300:]
+        if recheck and "demo_passes_clean" in res:
+            pass
+        else:
+          rc_clean, o1 = run(f"/venv/bin/python {d}/demo.py", env={"PYTHONPATH": "/repo/src"}, cwd=tmp, timeout=900)
+          rc_mut, o2 = run(f"/venv/bin/python {d}/demo.py", env=env_mut, cwd=tmp, timeout=900)
+          res["demo_passes_clean"] = rc_clean == 0
+          res["demo_fails_patched"] = rc_mut != 0
+          res["demo_tail_patched"] = o2[-300:]
         checks = {}
         for p in props:
             rc, out = run(f".venv/bin/python -m pyvc.cli check {p}", env={"PYTHONPATH": os.path.join(tmp, "src"), "PYVC_REPO_SRC": os.path.join(tmp, "src")}, cwd=ROOT, timeout=3000)
